@@ -53,6 +53,23 @@ Record fn := { fname : ident; fparams : list (ident * ty); fret : ty; fbody : st
 (* top-level constants: let g: t = e  (immutable) *)
 Record program := { pglobals : list (ident * ty * expr); pfns : list fn; pmain : ident }.
 
+(* a string literal is kept as spelled in the source; its value is the spelling with the escape sequences
+   backslash-n, -t, -r, -0, -backslash, -doublequote, -quote translated (what the C compiler does for the native
+   backend, codegen.c for the VM); as in C, the value ends at the first NUL *)
+Fixpoint unescape_raw (s : list N) : list N :=
+  match s with
+  | 92 :: c :: r =>
+      let k := match c with
+               | 110 => Some 10 | 116 => Some 9 | 114 => Some 13 | 48 => Some 0
+               | 92 => Some 92 | 34 => Some 34 | 39 => Some 39 | _ => None end%N in
+      match k with Some b => b :: unescape_raw r | None => 92%N :: c :: unescape_raw r end
+  | c :: r => c :: unescape_raw r
+  | [] => []
+  end%N.
+Fixpoint until_nul (s : list N) : list N :=
+  match s with [] => [] | c :: r => if N.eqb c 0 then [] else c :: until_nul r end.
+Definition unescape (s : list N) : list N := until_nul (unescape_raw s).
+
 Inductive value := VInt (z : Z) | VBool (b : bool) | VVoid | VStr (s : list N).
 
 Definition binop_eqb (a b : binop) : bool :=
